@@ -860,3 +860,13 @@ func (c *Contract) usesAtLoop() bool {
 	}
 	return false
 }
+
+// usesCalled: some clause mentions called("F").
+func (c *Contract) usesCalled() bool {
+	for _, cl := range c.Clauses {
+		if strings.Contains(cl.Text, "called(") {
+			return true
+		}
+	}
+	return false
+}
